@@ -6,6 +6,7 @@ package main
 // re-evaluated on the observed concrete behaviour.
 
 import (
+	"go/constant"
 	"bytes"
 	"encoding/json"
 	"fmt"
@@ -90,6 +91,11 @@ type replayer struct {
 	imports map[string]string // path -> name
 	values  map[T]string
 	extra   string // extra constraints that keep the model small
+	// unfaithful: some part of the model's input could not be built as a Go
+	// value (e.g. a non-nil pointer field to a library object was left nil),
+	// so the replayed input need not satisfy the preconditions: what the real
+	// code does on it is not evidence
+	unfaithful string
 }
 
 // preferSmall looks for a model in which every string and slice reachable
@@ -369,6 +375,7 @@ func (rp *replayer) concretize(v Val, t types.Type, own *types.Package) string {
 		for i := 0; i < st.NumFields(); i++ {
 			f := st.Field(i)
 			if !f.Exported() && f.Pkg() != own {
+				rp.unfaithful = "unexported field " + f.Name() + " of another package left at its zero value"
 				continue // unexported field of another package: zero value
 			}
 			fv := v.field(i)
@@ -377,6 +384,7 @@ func (rp *replayer) concretize(v Val, t types.Type, own *types.Package) string {
 				defer func() {
 					if r := recover(); r != nil {
 						lit = "" // not expressible: leave the zero value
+						rp.unfaithful = "field " + f.Name() + " could not be built from the model and was left at its zero value"
 					}
 				}()
 				lit = rp.concretize(fv, f.Type(), own)
@@ -499,6 +507,136 @@ func (rp *replayer) run() {
 	out := runReplayTest(rp.eng.repo, pkgDir, src.String())
 	rp.doc.Observed = out
 	rp.judge(out)
+	if rp.doc.Verdict != "reproduced" {
+		rp.searchPanic()
+	}
+}
+
+// searchPanic: the model's input did not make the real code fail (the failed
+// obligation sits behind a loop cut).  For safety obligations of functions
+// that take only strings, look for a failing input directly: every tuple of
+// short strings over the bytes the function compares with is run on the real
+// code.  A panic found this way is a failing input of the real code; finding
+// none decides nothing (the violation stands as reported by the prover).
+func (rp *replayer) searchPanic() {
+	fx := rp.fx
+	fn := fx.root
+	switch rp.o.Kind {
+	case "bounds", "nil", "div", "typeassert", "panic":
+	default:
+		return
+	}
+	if fn == nil || fn.Signature.Recv() != nil || len(fn.Params) == 0 || len(fn.Params) > 2 {
+		return
+	}
+	if spec := fx.rootSpec; spec != nil {
+		for _, r := range spec.Requires {
+			if r.Label == "" || strings.HasPrefix(r.Label, "safe") {
+				return // inputs would have to satisfy a precondition
+			}
+		}
+	}
+	for _, p := range fn.Params {
+		if b, ok := p.Type().Underlying().(*types.Basic); !ok || b.Kind() != types.String {
+			return
+		}
+	}
+	// alphabet: byte constants of the function (and of the helpers it
+	// calls directly), plus a few generic ones
+	seen := map[byte]bool{}
+	var alpha []byte
+	var literals []string
+	add := func(b byte) {
+		if !seen[b] && len(alpha) < 7 {
+			seen[b] = true
+			alpha = append(alpha, b)
+		}
+	}
+	var scan func(f *ssa.Function, depth int)
+	scan = func(f *ssa.Function, depth int) {
+		for _, bl := range f.Blocks {
+			for _, in := range bl.Instrs {
+				for _, op := range in.Operands(nil) {
+					if c, ok := (*op).(*ssa.Const); ok && c.Value != nil {
+						switch c.Value.Kind() {
+						case constant.Int:
+							if v, ok := constant.Int64Val(c.Value); ok && v >= 32 && v < 127 {
+								add(byte(v))
+							}
+						case constant.String:
+							if lit := constant.StringVal(c.Value); len(lit) > 0 && len(lit) <= 64 && len(literals) < 12 {
+								literals = append(literals, lit)
+							}
+							for _, ch := range []byte(constant.StringVal(c.Value)) {
+								add(ch)
+							}
+						}
+					}
+				}
+				if call, ok := in.(*ssa.Call); ok && depth < 1 {
+					if cf := call.Call.StaticCallee(); cf != nil && inModule(cf) && len(cf.Blocks) > 0 {
+						scan(cf, depth+1)
+					}
+				}
+			}
+		}
+	}
+	scan(fn, 0)
+	for _, b := range []byte{'a', 0x80, '.', '0'} {
+		add(b)
+	}
+	maxLen := 5
+	if len(fn.Params) == 2 {
+		maxLen = 3
+	}
+	own := fn.Pkg.Pkg
+	var src strings.Builder
+	fmt.Fprintf(&src, "package %s\n\nimport (\n\t\"fmt\"\n\t\"os\"\n\t\"testing\"\n)\n\n", own.Name())
+	fmt.Fprintf(&src, "func TestGovcReplay(t *testing.T) {\n\talpha := []byte{%s}\n", bytesLit(func() []int64 {
+		var o []int64
+		for _, b := range alpha {
+			o = append(o, int64(b))
+		}
+		return o
+	}()))
+	fmt.Fprintf(&src, "\tcands := []string{\"\"}\n\tprev := []string{\"\"}\n\tfor l := 1; l <= %d; l++ {\n\t\tvar cur []string\n\t\tfor _, p := range prev {\n\t\t\tfor _, c := range alpha {\n\t\t\t\tcur = append(cur, p+string([]byte{c}))\n\t\t\t}\n\t\t}\n\t\tcands = append(cands, cur...)\n\t\tprev = cur\n\t}\n", maxLen)
+	// the function's own string literals and simple variations of them
+	src.WriteString("\tfor _, lit := range []string{")
+	for _, l := range literals {
+		fmt.Fprintf(&src, "%q, ", l)
+	}
+	src.WriteString("} {\n\t\tcands = append(cands, lit, lit[1:], lit[:len(lit)-1], \"a\"+lit, lit+\"a\", \".\"+lit, lit+\".\", \"a.\"+lit, \"a\"+lit[1:])\n\t}\n")
+	src.WriteString("\tn := 0\n\ttry := func(args ...string) (bad bool) {\n\t\tdefer func() {\n\t\t\tif r := recover(); r != nil {\n\t\t\t\tbad = true\n\t\t\t\tfmt.Fprintf(os.Stdout, \"GOVC-SEARCH-PANIC %q %v\\n\", args, r)\n\t\t\t}\n\t\t}()\n\t\tn++\n")
+	if len(fn.Params) == 1 {
+		fmt.Fprintf(&src, "\t\t%s(args[0])\n", fn.Name())
+	} else {
+		fmt.Fprintf(&src, "\t\t%s(args[0], args[1])\n", fn.Name())
+	}
+	src.WriteString("\t\treturn false\n\t}\n")
+	if len(fn.Params) == 1 {
+		src.WriteString("\tfor _, a := range cands {\n\t\tif try(a) {\n\t\t\tbreak\n\t\t}\n\t}\n")
+	} else {
+		src.WriteString("outer:\n\tfor _, a := range cands {\n\t\tfor _, b := range cands {\n\t\t\tif try(a, b) {\n\t\t\t\tbreak outer\n\t\t\t}\n\t\t}\n\t}\n")
+	}
+	src.WriteString("\tfmt.Fprintf(os.Stdout, \"GOVC-SEARCH-DONE %d\\n\", n)\n}\n")
+	pkgDir := ""
+	for _, p := range fx.eng.pkgs {
+		if p.Types == own && len(p.GoFiles) > 0 {
+			pkgDir = filepath.Dir(p.GoFiles[0])
+		}
+	}
+	if pkgDir == "" {
+		return
+	}
+	out := runReplayTest(repoDir(), pkgDir, src.String())
+	for _, l := range strings.Split(out, "\n") {
+		if strings.HasPrefix(l, "GOVC-SEARCH-PANIC ") {
+			rp.doc.Verdict = "reproduced"
+			rp.doc.Note = "the prover's model sits behind a loop cut; a failing input was found by running the real function on all short strings over the bytes it compares with: " + strings.TrimPrefix(l, "GOVC-SEARCH-PANIC ")
+			rp.doc.Inputs = append(rp.doc.Inputs, "found by search: "+strings.TrimPrefix(l, "GOVC-SEARCH-PANIC "))
+			return
+		}
+	}
 }
 
 // runReplayTest injects the test with -overlay and runs it.
@@ -535,12 +673,20 @@ var resultLine = regexp.MustCompile(`^GOVC-RESULT (\S+) (\S+) ?(.*)$`)
 // judge decides whether the observed behaviour violates the obligation.
 func (rp *replayer) judge(out string) {
 	o := rp.o
+	if rp.unfaithful != "" {
+		rp.doc.Verdict = "not-reproduced"
+		rp.doc.Note = "the model's input could not be rebuilt faithfully (" + rp.unfaithful + "); the behaviour of the real code on the approximated input is not used as evidence"
+		return
+	}
 	panicked := strings.Contains(out, "GOVC-PANIC") || strings.Contains(out, "panic:")
 	timedOut := strings.Contains(out, "timed out")
 	switch o.Kind {
 	case "bounds", "nil", "panic", "typeassert", "div", "requires":
 		if panicked {
 			rp.doc.Verdict = "reproduced"
+			return
+		}
+		if rp.postconditionBroken(out) {
 			return
 		}
 		rp.doc.Verdict = "not-reproduced"
@@ -570,14 +716,77 @@ func (rp *replayer) judge(out string) {
 			rp.doc.Verdict = "not-reproduced"
 		}
 	default:
+		if panicked {
+			rp.doc.Verdict = "reproduced"
+			rp.doc.Note = "the call panicked on the model input"
+			return
+		}
+		if rp.postconditionBroken(out) {
+			return
+		}
 		rp.doc.Verdict = "not-reproduced"
 	}
+}
+
+// postconditionBroken: the failed obligation is not a postcondition, but the
+// model's input may still make the real function break one.
+func (rp *replayer) postconditionBroken(out string) bool {
+	if rp.fx.root == nil || !valueOnly(rp.fx.root) || !strings.Contains(out, "GOVC-RETURNED") {
+		return false
+	}
+	ok, msg := rp.clausesOnObserved(out, true)
+	rp.doc.ClauseCheck = msg
+	if !ok {
+		rp.doc.Verdict = "reproduced"
+		rp.doc.Note = "found through the model of " + rp.o.Name + ": " + msg
+		return true
+	}
+	return false
 }
 
 // clauseOnObserved evaluates the violated ensures clause on the concrete
 // inputs and the results observed from the real code, using the same
 // encoding (everything is pinned to constants, so the query is ground).
 func (rp *replayer) clauseOnObserved(out string) (holds bool, msg string) {
+	return rp.clausesOnObserved(out, false)
+}
+
+// valueOnly: every parameter and result is a value the replay pins completely
+// (numbers, booleans, strings, byte arrays, netip.Addr): only then does a
+// clause evaluated on the observed behaviour mean something.
+func valueOnly(fn *ssa.Function) bool {
+	ok := func(t types.Type) bool {
+		sh := shapeOf(t)
+		switch sh.kind {
+		case KInt, KBool, KStr, KArr:
+			return true
+		case KOpaque:
+			return sh.key == "net/netip.Addr"
+		}
+		return false
+	}
+	for _, p := range fn.Params {
+		if !ok(p.Type()) {
+			return false
+		}
+	}
+	res := fn.Signature.Results()
+	for i := 0; i < res.Len(); i++ {
+		if !ok(res.At(i).Type()) {
+			if types.Identical(res.At(i).Type(), types.Universe.Lookup("error").Type()) {
+				continue
+			}
+			return false
+		}
+	}
+	return true
+}
+
+// clausesOnObserved: with all == false the violated ensures clause, with
+// all == true every ensures clause of the contract (used when the failed
+// obligation is not itself a postcondition: an input on which the real
+// function breaks any postcondition of its contract is a failing input).
+func (rp *replayer) clausesOnObserved(out string, all bool) (holds bool, msg string) {
 	fx := rp.fx
 	fn := fx.root
 	o := rp.o
@@ -651,7 +860,7 @@ func (rp *replayer) clauseOnObserved(out string) (holds bool, msg string) {
 	if spec == nil {
 		return true, "no contract"
 	}
-	var clause *Clause
+	var clauses []*Clause
 	// (the name carries "#k" for the k-th return point)
 	oname := o.Name
 	if i := strings.LastIndex(oname, "#"); i > strings.LastIndex(oname, "/") {
@@ -659,15 +868,52 @@ func (rp *replayer) clauseOnObserved(out string) (holds bool, msg string) {
 	}
 	for i := range spec.Ensures {
 		c := spec.Ensures[i]
-		if strings.HasSuffix(oname, "/ensures/"+clauseName(c, i)) {
-			clause = &spec.Ensures[i]
+		if all || strings.HasSuffix(oname, "/ensures/"+clauseName(c, i)) {
+			clauses = append(clauses, &spec.Ensures[i])
 		}
 	}
-	if clause == nil {
+	if len(clauses) == 0 {
 		return true, "clause not found"
 	}
+	undecided := false
+	for _, clause := range clauses {
+		st, ok := rp.evalClauseOnObserved(clause, post, pins)
+		switch {
+		case !ok:
+			undecided = true
+		case st == "sat":
+			if all {
+				return false, "postcondition '" + clause.Label + "' of the contract is FALSE on the observed behaviour of the real code"
+			}
+			return false, "the clause is FALSE on the observed behaviour of the real code"
+		case st != "unsat":
+			undecided = true
+		}
+	}
+	if undecided {
+		return true, "clause evaluation undecided"
+	}
+	return true, "the clause holds on the observed behaviour of the real code"
+}
+
+func (rp *replayer) evalClauseOnObserved(clause *Clause, post map[string]CV, pins []T) (status string, ok bool) {
+	fx := rp.fx
+	fn := fx.root
+	defer func() {
+		if r := recover(); r != nil {
+			if _, isU := r.(unsupported); isU {
+				status, ok = "", false
+				return
+			}
+			panic(r)
+		}
+	}()
 	init := &State{guard: "true", cells: map[*Cell]Val{}, heaps: map[string]T{}, alloc: "0"}
-	env := &Env{fx: fx, vars: post, st: init, old: init, bound: map[string]bool{}}
+	vars := map[string]CV{}
+	for k, v := range post {
+		vars[k] = v
+	}
+	env := &Env{fx: fx, vars: vars, st: init, old: init, bound: map[string]bool{}}
 	if fn.Pkg != nil {
 		env.pkg = fn.Pkg.Pkg
 	}
@@ -676,7 +922,6 @@ func (rp *replayer) clauseOnObserved(out string) (holds bool, msg string) {
 			env.vars[p.Name()] = cvOf(fx.entryParams[i].v)
 		}
 	}
-	nAssumeBefore := len(fx.assumes)
 	t := env.eval(clause.E).asBool()
 	var b strings.Builder
 	b.WriteString(fx.eng.prelude)
@@ -686,7 +931,6 @@ func (rp *replayer) clauseOnObserved(out string) (holds bool, msg string) {
 		if strings.HasPrefix(a, "(=> ") {
 			continue // path facts of the symbolic run are not used
 		}
-		_ = nAssumeBefore
 		if isGroundDefinition(a) {
 			b.WriteString("(assert " + a + ")\n")
 		}
@@ -696,13 +940,7 @@ func (rp *replayer) clauseOnObserved(out string) (holds bool, msg string) {
 	}
 	b.WriteString("(assert (not " + t + "))\n")
 	res := runSolversText(b.String(), 20, nil)
-	switch res.Status {
-	case "sat":
-		return false, "the clause is FALSE on the observed behaviour of the real code"
-	case "unsat":
-		return true, "the clause holds on the observed behaviour of the real code"
-	}
-	return true, "clause evaluation undecided"
+	return res.Status, true
 }
 
 // isGroundDefinition keeps only assumptions that define string constants or
